@@ -100,7 +100,7 @@ Ruri(c, lport) ==
       [] c = "foreign"  -> SipU("bob", "elsewhere.example", 0, <<>>)
 
 Resolv == [h \in {LADDR, "10.0.0.2", "10.0.9.9", "10.0.1.1", "10.0.1.2", "10.0.1.3", "10.0.1.4", "10.0.1.5", "10.0.1.6",
-                  "10.0.2.1", "10.0.2.2", "10.0.2.3", "1.2.3.4", "10.0.5.5"} |-> h]
+                  "10.0.2.1", "10.0.2.2", "10.0.2.3", "1.2.3.4", "10.0.5.5", "10.0.4.1"} |-> h]
           @@ (ALIAS :> LADDR) @@ ("n1.example.com" :> "10.0.1.7") @@ ("client.example.com" :> "10.0.2.9")
 
 AllTrans(lport) == ("p1.t1" :> [lid |-> "p1.t1", proto |-> "UDP", addr |-> LADDR, port |-> lport]) @@
@@ -140,6 +140,10 @@ Env == [ keep |-> rc.keep, names |-> Names, static |-> (IF rc.to = "default" THE
          learned |-> CASE rc.learn = "none" -> <<>>
                        [] rc.learn = "hop.p1" -> ("10.0.1.1" :> "p1.t1") @@ ("10.0.1.2" :> "p1.t2") @@ ("10.0.1.4" :> "p1.t1") @@ ("n1.example.com" :> "p1.t1")
                        [] rc.learn = "hop.p1real" -> ("10.0.1.1" :> "p1.t3") @@ ("10.0.1.2" :> "p1.t3") @@ ("10.0.1.4" :> "p1.t3") @@ ("10.0.1.5" :> "p1.t3")
+                       \* learnt from a request that a BACKEND's address sent through p1.t1 (its source and the hosts in its Via)
+                       [] rc.learn = "hop.bk" -> ("10.0.4.1" :> "p1.t1") @@ ("10.0.1.1" :> "p1.t1") @@ ("10.0.1.4" :> "p1.t1") @@ ("n1.example.com" :> "p1.t1")
+                       \* the user agent a response will go back to has itself sent a request through the real UDP listener p1.t3
+                       [] rc.learn = "ua.p1real" -> ("10.0.2.1" :> "p1.t3")
                        [] rc.learn = "hop.p2" -> ("10.0.1.1" :> "p2.t1") @@ ("10.0.1.5" :> "p2.t1"),
          pool |-> IF rc.pool = "empty" THEN {} ELSE {"10.0.4.1:5060", "10.0.4.2:5060"} ]
 
